@@ -136,7 +136,7 @@ def main(chk):
                 if cm != 0:
                     side = S.vdot(rvec, Nf)
                     flip = (t1 == 0 and t2 == 1) or (t1 == 3 and t2 == 0)
-                    forbidden = S.cmp('gt', side, S.ZERO) if flip else S.cmp('lt', side, S.ZERO)
+                    forbidden = S.cmp('ge', side, S.ZERO) if flip else S.cmp('lt', side, S.ZERO)   # a node exactly on an enclosing surface counts as escaped
                     ob('repulsion only when the node is on the forbidden side of the face', forbidden)
             else:
                 if cm != 0 and not (t1 == 0 and t2 == 0):
